@@ -407,6 +407,7 @@ def _resolve_import(rule, target):
         return
 
     # add all rules of @import to current sheet
+    before = list(target.cssRules)
     target.add(
         css.CSSComment(
             # (the href must not end the comment)
@@ -445,8 +446,21 @@ def _resolve_import(rule, target):
         return
 
     imp_target = media_proxy or target
-    for r in importedSheet:
-        _add_rule(imp_target, r)
+    try:
+        for r in importedSheet:
+            _add_rule(imp_target, r)
+    except xml.dom.DOMException as e:
+        # e.g. a namespace prefix which is bound to another URI (and in use)
+        # in the combined sheet
+        log.warn(
+            f'@import: Cannot combine the imported sheet, keeping rule: {e}',
+            neverraise=True,
+        )
+        del target.cssRules[:]
+        for i, r in enumerate(before):
+            target.cssRules.insert(i, r)
+        _add_rule(target, rule)
+        return
 
     if media_proxy:
         target.add(media_proxy)
